@@ -30,6 +30,16 @@ case "${1:-}" in
     done
     git -C $B/repo checkout -q -- .
     ;;
+  e2e)
+    # bench.sh e2e <abs patch> <phase> [n]: one end-to-end phase with the change applied
+    P="$2"; PH="$3"; N="${4:-1}"
+    cd $B/repo || exit 2
+    git checkout -q -- .
+    git apply "$P" || exit 2
+    ( cd $B/verif/harness && cargo build --release --quiet 2>&1 | tail -3 )
+    ( cd $B/verif && VERIF_DIR_OVERRIDE=$B/verif VERIF_SEED=${VERIF_SEED:-1} harness/target/release/vcheck e2e "$PH" "$N" 2>&1 | grep -E "^violation|VIOLATION|scenarios_run|notes|inconclusive" ; echo "rc=${PIPESTATUS[0]}" )
+    git -C $B/repo checkout -q -- .
+    ;;
   drop)
     git -C /repo worktree remove --force $B/repo; rm -rf $B
     ;;
